@@ -101,6 +101,15 @@ class SeqC:
         self.arr, self.n, self.nans = arr, n, nans
 
 
+class MapC:
+    """python dict with symbolic keys: domain predicate, value array, size (insertion-ordered semantics are not needed
+    by the functions under contract: order is carried by explicit uid maps)"""
+    __slots__ = ('dom', 'val', 'n', 'ksort', 'vsort')
+
+    def __init__(self, dom, val, n):
+        self.dom, self.val, self.n = dom, val, n
+
+
 class DictC:
     __slots__ = ('items',)
 
@@ -242,6 +251,17 @@ class TColl(Sort):
         n = fresh(name + '.size', I)
         st.assume(n >= 0)
         return Coll(name, n, self.keysort)
+
+
+class TMap(Sort):
+    def __init__(self, ksort, vsort):
+        self.ksort, self.vsort = ksort, vsort
+
+    def make(self, st, name):
+        n = fresh(name + '.size', I)
+        st.assume(n >= 0)
+        c = MapC(fresh(name + '.dom', z3.ArraySort(self.ksort, Bo)), fresh(name + '.val', z3.ArraySort(self.ksort, self.vsort)), n)
+        return st.new_ref(c, name)
 
 
 class TObj(Sort):
